@@ -90,6 +90,8 @@ Definition q_one p tol ptol k Qt (e : list Q * (list Q * list Q)) :=
    @greedy_checkF Q NumQ p ptol (fst (snd e)) (snd (snd e)), qz (@WoptF Q NumQ p k u), qz (tailF p k u)).
 Definition q_rep p qtol tol ptol k Vs Qt es :=
   (@wfpomdpb Q NumQ p, @chk_qtableF Q NumQ p qtol Vs Qt, map (q_one p tol ptol k Qt) es).
+Definition gr p ptol (l : list (list Q * list Q)) :=
+  map (fun e => @greedy_checkF Q NumQ p ptol (fst e) (snd e)) l.
 Definition sw p tol Gprev B cand idx := @chk_sweepF Q NumQ p tol Gprev B cand idx.
 Definition mir p H amb eps B Gi tol :=
   (@wfpomdpb bigQ NumB p,
@@ -276,6 +278,20 @@ def fr(x):
     return vlib.frac(x)
 
 
+def rep_entries(queries):
+    """[(belief index, representation, result)] for the non-dense representations that returned numbers"""
+    out = []
+    for bi, qr in enumerate(queries):
+        for name, r in qr.get("reps", {}).items():
+            if "error" not in r and finite(r["value"]) and all(finite(x) for x in r["action_values"] + r["dist"]):
+                out.append((bi, name, r))
+    return out
+
+
+def gr_term(pt, ptol, ents):
+    return "gr %s %s %s" % (pt, q(ptol), coqlist("(%s, %s)" % (qlist(r["action_values"]), qlist(r["dist"])) for _, _, r in ents))
+
+
 def finite(x):
     return not isinstance(x, str) and x is not None
 
@@ -350,6 +366,11 @@ def run(ctx):
                     pt, q(tol), q(ptol), nat(k), nat(j), vlib.b(j <= 25), qmat(G), qmat(Qs),
                     entries(case["beliefs"], pb["queries"]), qmat(pts)))
                 meta.append(("pb", i))
+                ents = rep_entries(pb["queries"])
+                if ents:
+                    info[i]["gr:pb"] = ents
+                    terms.append(gr_term(pt, ptol, ents))
+                    meta.append(("gr:pb", i))
                 nb = min(len(B), 8)
                 terms.append("sw %s %s %s %s %s %s" % (
                     pt, q(tol), qmat(lc["prev_alpha_vectors"]), qmat(B[:nb]), qten(lc["candidates"][:nb]),
@@ -381,10 +402,17 @@ def run(ctx):
                 pt, q(qtol), q(tol + qtol * 2), q(ptol), nat(k), qlist(Vs), qmat(qr["Q"]),
                 entries(case["beliefs"], qr["queries"])))
             meta.append(("q:" + name, i))
+            ents = rep_entries(qr["queries"])
+            if ents:
+                info[i]["gr:q:" + name] = ents
+                terms.append(gr_term(pt, ptol, ents))
+                meta.append(("gr:q:" + name, i))
 
     vals = ctx.coq(PRE, terms, shard=3 if tier == "quick" else 8, timeout=1200)
 
     distinct = set()
+    states_ignored = set()
+    rep_reported = set()
     amb = drift = mirror_ok = 0
     nev = 0
     for (kind, i), v in zip(meta, vals):
@@ -426,6 +454,28 @@ def run(ctx):
                     ctx.violation("C08:alpha-policy:action-value-differs-from-lookahead", dict(d, model_action_values=[str(y) for y in mav]), found=True)
                 if not greedy:
                     ctx.violation("C08:pbvi:action-dist-not-uniform-over-own-maximisers", d, found=True)
+                # the same belief handed over in every other legal representation
+                for rname, rr in qr.get("reps", {}).items():
+                    counters["representation_checks"] = counters.get("representation_checks", 0) + 1
+                    dr = dict(d, representation=rname, impl_representation=rr)
+                    if rname == "ndarray" and "error" in rr and rr["error"].startswith("TypeError"):
+                        counters["alpha_ndarray_belief_raises_TypeError"] = counters.get("alpha_ndarray_belief_raises_TypeError", 0) + 1
+                        continue      # observation: isinstance(belief, (list, tuple, np.array)) is ill-typed
+                    bad = "error" in rr or not finite(rr["value"]) or abs(fr(rr["value"]) - mval) > tol or \
+                        any(not finite(x) for x in rr["action_values"]) or \
+                        any(abs(fr(x) - y) > tol for x, y in zip(rr["action_values"], mav))
+                    if not bad:
+                        continue
+                    if rname in ("support", "permuted"):
+                        if i not in states_ignored:
+                            states_ignored.add(i)
+                            ctx.violation("C08:alpha-policy:belief-states-ignored",
+                                          dict(dr, clause="AlphaVectorPolicy pairs the probabilities of a Belief with pomdp.state_list instead of the states the Belief carries: value/action_value of the same belief differ (or raise) when the Belief lists only its support or lists the states in another order",
+                                               model_action_values=[str(y) for y in mav]), found=True)
+                    elif "error" in rr:
+                        ctx.violation("C08:alpha-policy:belief-representation-raises:%s:%s" % (rname, rr["error"].split(":")[0]), dr, found=True)
+                    else:
+                        ctx.violation("C08:alpha-policy:value-is-not-max-alpha-dot-belief", dict(dr, model_action_values=[str(y) for y in mav]), found=True)
             # points of the recorded belief set
             B = pb["last_call"]["belief_set"]
             closed = False
@@ -446,6 +496,14 @@ def run(ctx):
                     ctx.violation("C08:pbvi:value-exceeds-qmdp-value-plus-slack", d, found=True)
                 if fullobs and closed and not fge:
                     ctx.violation("C08:fullobs:pbvi-below-optimal-value-on-closed-belief-set", d, found=True)
+        elif kind.startswith("gr:"):
+            ents = info[i][kind]
+            who = "pbvi" if kind == "gr:pb" else "qmdp-" + kind[5:]
+            for (bi, rname, rr), okv in zip(ents, v):
+                nev += 1
+                if not okv and not (who == "pbvi" and rname in ("support", "permuted") and i in states_ignored):
+                    ctx.violation("C08:%s:action-dist-not-uniform-over-own-maximisers" % who,
+                                  dict(base, belief=case["beliefs"][bi], representation=rname, impl=rr), found=True)
         elif kind == "sw":
             nev += 1
             counters["sweep_checks"] = counters.get("sweep_checks", 0) + 1
@@ -496,6 +554,24 @@ def run(ctx):
                     ctx.violation("C08:qmdp-%s:value-not-max-action-value" % name, d, found=True)
                 if not greedy:
                     ctx.violation("C08:qmdp-%s:action-dist-not-uniform-over-own-maximisers" % name, d, found=True)
+                for rname, rr in bq.get("reps", {}).items():
+                    counters["representation_checks"] = counters.get("representation_checks", 0) + 1
+                    dr = dict(d, representation=rname, impl_representation=rr, model=[str(y) for y in mav])
+                    sig = clause = None
+                    if "error" in rr:
+                        sig = "C08:qmdp-%s:belief-representation-raises:%s:%s" % (name, rname, rr["error"].split(":")[0])
+                    elif any(not finite(x) for x in rr["action_values"]) or \
+                            any(abs(fr(x) - y) > tol * 20 for x, y in zip(rr["action_values"], mav)):
+                        sig = "C08:qmdp-%s:action-value-not-belief-weighted-table" % name
+                        clause = "QMDP action value of a Belief that lists only its support / lists its states in another order is not sum_s b(s) Q(s,a)"
+                    elif not finite(rr["value"]) or fr(rr["value"]) != max(fr(x) for x in rr["action_values"]):
+                        sig = "C08:qmdp-%s:value-not-max-action-value" % name
+                    elif fr(rr["value"]) < wk - tl - tol * 20:
+                        sig = "C08:qmdp-%s:value-below-optimal-value-bound" % name
+                        clause = "QMDP value < Wopt k b - tail k: QMDP under-estimates"
+                    if sig and (i, name, rname, sig) not in rep_reported:
+                        rep_reported.add((i, name, rname, sig))   # one replay per (case, solver, representation)
+                        ctx.violation(sig, dict(dr, clause=clause) if clause else dr, found=True)
                 if fullobs and fr(bq["value"]) > wk + tl + tol * 20:
                     ctx.violation("C08:fullobs:qmdp-above-optimal-value", dict(d, clause="observations reveal the state: QMDP value must equal W*, but exceeds Wopt k + tail k"), found=True)
 
